@@ -755,11 +755,11 @@ def run(ctx):
         hdr = ctx.header(["Common.PyFloat", "Model"])
         bad, log = ctx.eval_cases(hdr, "case", "check_case", coq_cases, shard=24 if ctx.tier == "thorough" else 12)
         if bad:
-            for b in bad[:5]:
+            for n_bad, b in enumerate(bad[:5]):
                 i = coq_idx[b]
                 c, ro = cases[i], results[i]["ok"]
                 detail = None
-                if c["kind"] == "prior":
+                if c["kind"] == "prior" and n_bad < 2:     # name the disagreeing observations of the first two
                     single, idx = [], []
                     for k in range(len(c["obs"])):
                         if coq_obs(c["obs"][k], ro["obs"][k]):
